@@ -32,6 +32,7 @@ type delayedChildSpec struct {
 	Threads  [][]opx `json:"threads"`
 	OffsetMs int     `json:"offset_ms"`
 	Free     bool    `json:"free"` // free-running goroutines instead of the controlled schedule
+	Dynamic  bool    `json:"dynamic"`
 }
 
 // concChildMain: C18_CONCCHILD=<file with a JSON array of delayedChildSpec>; one JSON
@@ -44,7 +45,13 @@ func concChildMain() {
 	}
 	all := make([][][]string, len(specs))
 	for k, spec := range specs {
-		fs, err := credentials.NewFileStore(spec.Path)
+		var fs credentials.Store
+		var err error
+		if spec.Dynamic {
+			fs, err = credentials.NewStore(spec.Path, credentials.StoreOptions{AllowPlaintextPut: true})
+		} else {
+			fs, err = credentials.NewFileStore(spec.Path)
+		}
 		if err != nil {
 			continue
 		}
@@ -66,7 +73,7 @@ var (
 	mu                     sync.Mutex
 )
 
-func runControlled(fs *credentials.FileStore, spec delayedChildSpec) [][]string {
+func runControlled(fs credentials.Store, spec delayedChildSpec) [][]string {
 	results := make([][]string, len(spec.Threads))
 	warm := make(chan struct{}) // closed when the warm-up operations are done
 	var warmWG, wg sync.WaitGroup
@@ -193,7 +200,7 @@ func execFree(ps []concPrep) ([][][]string, string) {
 	buildRaceChild()
 	specs := make([]delayedChildSpec, len(ps))
 	for i, p := range ps {
-		specs[i] = delayedChildSpec{Path: p.path, Threads: p.cc.Threads, Free: true}
+		specs[i] = delayedChildSpec{Path: p.path, Threads: p.cc.Threads, Free: true, Dynamic: p.cc.Dynamic}
 	}
 	c, specFile := childCmd(specs)
 	defer os.Remove(specFile)
